@@ -43,7 +43,7 @@ def rule_end_guard(ctx, tnames, rule='END-GUARD', prefix=None):
         und_cmp = {v[2] for v in r['undecided']}
         for v in r['violations']:
             obs.append(Ob(rule, f, v[0], 'no dereference of an iterator on a path on which it was just found equal to end()',
-                          endguard.describe(f, v), VIOLATED, arm=fmt_term(v[1])))
+                          endguard.describe(f, v, r), VIOLATED, arm=fmt_term(v[1])))
         for v in r['undecided']:
             obs.append(Ob(rule, f, v[0], 'no dereference of an iterator on a path on which it was just found equal to end()',
                           'correlated-flag path, feasibility unknown: ' + endguard.describe(f, v), UNDECIDED, arm=fmt_term(v[1])))
@@ -213,16 +213,19 @@ def rule_emit_guard(ctx):
                 guard_ok = False
                 guard_txt = 'no enclosing box test'
                 if pos:
+                    want = (('field', 'zmin', ('this',)), ('field', 'zmax', ('this',)), ('deref', IT))
                     for (b, lab) in g.transitive_control_deps(pos[0]):
                         c = g.cond(b)
-                        if not c:
+                        if not c or lab is not True:
                             continue
-                        ct = f.term(c, inline=False)
-                        if ct[0] == 'call' and ct[1] == MD + '::box_zcontains' and lab is True:
-                            want = (('field', 'zmin', ('this',)), ('field', 'zmax', ('this',)), ('deref', IT))
-                            if tuple(ct[2]) == want:
-                                guard_ok = True
-                            guard_txt = fmt_term(ct) + (' == true' if lab else ' == false')
+                        # the condition (possibly a conjunction) must imply box_zcontains(zmin, zmax, *it)
+                        form_ = _bool_formula(f, c)
+                        for a in _atoms(form_):
+                            at = f.term(a, inline=False)
+                            if at[0] == 'call' and at[1] == MD + '::box_zcontains':
+                                guard_txt = fmt_term(at) + ' == true'
+                                if tuple(at[2]) == want and _implies_atom(form_, a):
+                                    guard_ok = True
                 src_ok = t[3] == ('call', 'mortonnd::MortonNDBmi::Decode', (('deref', IT),), None)
                 st = OK if (guard_ok and src_ok) else VIOLATED
                 obs.append(Ob('EMIT-GUARD', f, i, 'p = Decode(*it) only under box_zcontains(zmin, zmax, *it) == true',
@@ -235,6 +238,43 @@ def rule_emit_guard(ctx):
             t = f.term(f.n(r)['ch'][0], inline=True)
             obs.append(Ob('EMIT-GUARD', f, r, 'operator* returns the guarded field p', fmt_term(t), OK if t == P else VIOLATED, arm='deref'))
     return obs
+
+
+def _range_status(fn, k, key, owner):
+    """is the searched range [lo, hi) guaranteed to contain the FIRST_GE/FIRST_GT position of key?
+    True: the PGM range of pgm.search(key) (C02), the whole data, or [current position, end); a galloping window
+    [x + step/2, min(x + step, end)) is valid for lower_bound only if the gallop loop continues on `*(x + step) < key`
+    (with `<=` elements equal to the key are skipped over) -> False; anything else -> None (undecided)"""
+    lo, hi = k[2], k[3]
+    data = ('field', 'data', owner)
+    srch = ('call', 'pgm::PGMIndex::search', (key,), ('field', 'pgm', owner))
+    if _contains(lo, ('field', 'lo', srch)) and _contains(hi, ('field', 'hi', srch)):
+        return True, 'range = pgm.search(bigmin)'
+    is_begin = lambda t: t[0] == 'call' and t[1].endswith('::begin') and t[3] == data
+    is_end = lambda t: t[0] == 'call' and t[1].endswith('::end') and t[3] == data
+    if is_end(hi) and (is_begin(lo) or lo == ('field', 'it', ('this',))):
+        return True, 'range = up to data.end()'
+    # galloping window
+    steps = [s_ for s_ in _subterms(lo) if s_[0] == 'op' and s_[1] == '/' and s_[3] == ('lit', 2)]
+    if steps:
+        step = steps[0][2]
+        while step[0] == 'cast':
+            step = step[2]
+        from cfg import graph as _g
+        g = _g(fn)
+        for b in g.reach:
+            c = g.cond(b)
+            if not c:
+                continue
+            t = fn.term(c, inline=True)
+            for s_ in _subterms(t):
+                if s_[0] == 'op' and len(s_) == 4 and s_[1] in ('<', '<=', '==') and s_[2][0] == 'deref' and _contains(s_[2], step) and s_[3] == key:
+                    need = '<' if k[0] == 'FIRST_GE' else '<='
+                    if s_[1] == need or (k[0] == 'FIRST_GT' and s_[1] == '=='):
+                        return True, f"galloping window grown while *(x + step) {s_[1]} key"
+                    return False, (f"galloping window grown while *(x + step) {s_[1]} key: elements equal to the key can lie before the window start, "
+                                   f"so {k[0]} inside the window misses them")
+    return None, 'searched range is not recognised'
 
 
 def rule_zskip_kind(ctx):
@@ -263,14 +303,11 @@ def rule_zskip_kind(ctx):
                 obs.append(Ob('KIND', f, i, 'FIRST_GE(bigmin) at the next examination of the cursor', 'cursor never read again', UNDECIDED, arm='zskip'))
             for (k, rd) in sorted(res, key=lambda x: x[1]):
                 ok = bool(k) and k[0] == 'FIRST_GE' and k[1] == bterm
-                srch_ok = True
-                if k:
-                    srch = ('call', 'pgm::PGMIndex::search', (bterm,), ('field', 'pgm', ('field', 'super', ('this',))))
-                    srch_ok = _contains(k[2], ('field', 'lo', srch)) and _contains(k[3], ('field', 'hi', srch))
-                obs.append(Ob('KIND', f, i, 'cursor is FIRST_GE(bigmin) within search(bigmin) range when next examined',
-                              f"{k[0] if k else 'unknown'}({'bigmin' if k and k[1] == bterm else (fmt_term(k[1]) if k else '?')}) at the next read (line {f.n(rd)['l']})"
-                              + ('' if srch_ok else '; search range is not that of pgm.search(bigmin)'),
-                              OK if (ok and srch_ok) else VIOLATED, arm='zskip'))
+                rng, rng_txt = _range_status(f, k, bterm, ('field', 'super', ('this',))) if k else (None, '')
+                st = OK if (ok and rng is True) else (VIOLATED if (not ok or rng is False) else UNDECIDED)
+                obs.append(Ob('KIND', f, i, 'cursor is FIRST_GE(bigmin), searched in a range that contains that position, when next examined',
+                              f"{k[0] if k else 'unknown'}({'bigmin' if k and k[1] == bterm else (fmt_term(k[1]) if k else '?')}) at the next read (line {f.n(rd)['l']}); {rng_txt}",
+                              st, arm='zskip'))
         if not found_any:
             raise AnalysisBroken(f"{f.qname}: no assignment of the cursor from a search for bigmin found")
     # constructor: initial position is FIRST_GE(zmin)
